@@ -196,8 +196,24 @@ impl Format {
             {
                 // If we've found the second separator of the previous token, let's simply increment the start index of the next substring.
                 if idx == prev_idx
+                    && !char.is_numeric()
                     && (prev_item.second_sep_char.is_none() || prev_item.second_sep_char_is(char))
                 {
+                    // Only the second separator, or the sign of an offset, may stand in front of a numeric field:
+                    // skipping anything else would drop the sign of that field.
+                    if cur_token.is_numeric()
+                        && cur_token != Token::OffsetHours
+                        && !prev_item.second_sep_char_is(char)
+                    {
+                        return Err(HifitimeError::Parse {
+                            source: ParsingError::UnexpectedCharacter {
+                                found: char,
+                                option1: prev_item.sep_char,
+                                option2: prev_item.second_sep_char,
+                            },
+                            details: "when parsing from format string",
+                        });
+                    }
                     prev_idx += 1;
                     continue;
                 }
